@@ -39,6 +39,7 @@ type c01Origin struct {
 	base string // scheme://127.0.0.1:port
 	mu   sync.Mutex
 	seen []*c01Seen
+	fail int // answer 503 to this many further requests (drives the client's retry path)
 	stop func()
 }
 
@@ -48,11 +49,16 @@ func (o *c01Origin) ServeHTTP(w http.ResponseWriter, r *http.Request) {
 	if s.ruri == "" && r.URL != nil { // quic-go's server does not fill RequestURI in every version
 		s.ruri = r.URL.RequestURI()
 	}
+	status := 200
 	o.mu.Lock()
 	o.seen = append(o.seen, s)
+	if o.fail > 0 {
+		o.fail--
+		status = 503
+	}
 	o.mu.Unlock()
 	w.Header().Set("Content-Type", "text/plain")
-	w.WriteHeader(200)
+	w.WriteHeader(status)
 	io.WriteString(w, "ok")
 }
 
@@ -61,7 +67,14 @@ func (o *c01Origin) take() []*c01Seen {
 	defer o.mu.Unlock()
 	s := o.seen
 	o.seen = nil
+	o.fail = 0
 	return s
+}
+
+func (o *c01Origin) failNext(n int) {
+	o.mu.Lock()
+	o.fail = n
+	o.mu.Unlock()
 }
 
 // c01StartOrigins starts an HTTP/1.1 (cleartext), an HTTP/2 (TLS, net/http's bundled
@@ -141,6 +154,7 @@ type c01E2ECase struct {
 	order      []string
 	pseudo     []string
 	useBase    bool
+	retries    int // the origin answers 503 to the first `retries` attempts; the same *Request is retried
 }
 
 var c01E2EHdrNames = []string{"User-Agent", "Accept", "X-A", "X-B", "X-C", "X-Long-Header-Name", "Content-Type", "Authorization", "Referer", "Origin", "Accept-Language", "Cache-Control", "Pragma",
@@ -262,6 +276,9 @@ func c01GenE2E(r *rand.Rand) *c01E2ECase {
 		}
 	}
 	tc.useBase = r.Intn(2) == 0
+	if r.Intn(4) == 0 && tc.bodyKind != "reader" {
+		tc.retries = 1 + r.Intn(2)
+	}
 	return tc
 }
 
@@ -467,6 +484,12 @@ func c01FireE2E(c *Client, o *c01Origin, tc *c01E2ECase) error {
 		b := tc.body
 		r.SetBody(func() (io.ReadCloser, error) { return io.NopCloser(bytes.NewReader(b)), nil })
 	}
+	if tc.retries > 0 {
+		o.failNext(tc.retries)
+		r.SetRetryCount(tc.retries).
+			SetRetryInterval(func(*Response, int) time.Duration { return 0 }).
+			SetRetryCondition(func(resp *Response, err error) bool { return err == nil && resp != nil && resp.StatusCode == 503 })
+	}
 	_, err := r.Send(tc.method, target)
 	return err
 }
@@ -476,7 +499,7 @@ func c01FireE2E(c *Client, o *c01Origin, tc *c01E2ECase) error {
 // header values, cookies and body the calls describe, and the three must agree.
 func TestVerif_C01_e2e(t *testing.T) {
 	s := c01New(t, "C01", "e2e",
-		"request specs through the public API (methods incl. extension tokens; 1..4 path segments literal or {param}; request/client path maps with reserved, CR/LF, non-ASCII values; request/client query maps with overlapping, empty and reserved keys; 0..6 (sometimes 30..60) request headers + 0..3 client headers, values with OWS / non-ASCII / 300 bytes; non-canonical names; 0..3+0..2 cookies; Host override; body none/bytes/string/scripted reader/GetBody func with sizes 0,1,4 KiB±1,16 KiB±1,32 KiB±1,64 KiB±1 (1 MiB in the thorough tier); header order and pseudo-header order lists) x {HTTP/1.1, HTTP/2, HTTP/3} x {compression on/off} x {keep-alive on/off}; oracle: each origin's view = the view computed from the spec, hence equal across protocols; non-trivial = all three origins saw the request")
+		"request specs through the public API (methods incl. extension tokens; 1..4 path segments literal or {param}; request/client path maps with reserved, CR/LF, non-ASCII values; request/client query maps with overlapping, empty and reserved keys; 0..6 (sometimes 30..60) request headers + 0..3 client headers, values with OWS / non-ASCII / 300 bytes; non-canonical names; 0..3+0..2 cookies; Host override; body none/bytes/string/scripted reader/GetBody func with sizes 0,1,4 KiB±1,16 KiB±1,32 KiB±1,64 KiB±1 (1 MiB in the thorough tier); header order and pseudo-header order lists) x {HTTP/1.1, HTTP/2, HTTP/3} x {compression on/off} x {keep-alive on/off}; a quarter of the requests is retried once or twice through the same *Request (the origin answers 503 first): every attempt must show the same view; oracle: each origin's view = the view computed from the spec, hence equal across protocols; non-trivial = all three origins saw the request")
 	log.SetOutput(io.Discard) // net/http logs every sanitised cookie byte
 	defer log.SetOutput(os.Stderr)
 	origins := c01StartOrigins(t)
@@ -522,7 +545,7 @@ func TestVerif_C01_e2e(t *testing.T) {
 			}
 			return "", false
 		}()
-		human := fmt.Sprintf("%q %q rpath=%q cpath=%q rq=%q cq=%q rhdr=%d chdr=%q nc=%q ck=%s/%s host=%q body=%s/%d order=%q pseudo=%q base=%v comp=%v ka=%v",
+		human := fmt.Sprintf("retries=%d ", tc.retries) + fmt.Sprintf("%q %q rpath=%q cpath=%q rq=%q cq=%q rhdr=%d chdr=%q nc=%q ck=%s/%s host=%q body=%s/%d order=%q pseudo=%q base=%v comp=%v ka=%v",
 			tc.method, tc.path, tc.rPath, tc.cPath, tc.rQuery, tc.cQuery, len(tc.rHdr), tc.cHdr, tc.nonCanon, c01Cookies(tc.rCk), c01Cookies(tc.cCk), tc.hostHdr, tc.bodyKind, len(tc.body), tc.order, tc.pseudo, tc.useBase, comp, ka)
 		views := map[string]string{}
 		allSeen := true
@@ -533,10 +556,18 @@ func TestVerif_C01_e2e(t *testing.T) {
 			err := c01FireE2E(clients[fmt.Sprintf("%s/%v/%v", p, comp, ka)], o, tc)
 			seen := o.take()
 			s.Count(p + ":fired")
-			if len(seen) != 1 {
+			if len(seen) != 1+tc.retries {
 				allSeen = false
 				views[p] = fmt.Sprintf("<%d requests seen, err=%v>", len(seen), err)
 				continue
+			}
+			// every retried attempt must be the very request the first attempt was
+			retryDiff := ""
+			for k := 1; k < len(seen); k++ {
+				s.Count("retried-attempt")
+				if a, b := c01View(seen[k], callerAE), c01View(seen[0], callerAE); a != b || seen[k].host != seen[0].host {
+					retryDiff = fmt.Sprintf("\nATTEMPT %d differs from attempt 1:\n%s", k+1, a)
+				}
 			}
 			wantHost := tc.hostHdr
 			if wantHost == "" {
@@ -557,7 +588,7 @@ func TestVerif_C01_e2e(t *testing.T) {
 			if seen[0].host != wantHost {
 				v += "\nHOST " + seen[0].host + " want " + wantHost
 			}
-			views[p] = v
+			views[p] = v + retryDiff
 		}
 		ok := allSeen
 		detail := ""
@@ -590,7 +621,7 @@ func TestVerif_C01_e2e(t *testing.T) {
 		}
 		s.Observe(fmt.Sprintf("e2e-%d", i), ok, class, allSeen, human, detail)
 	}
-	s.Need(t, "h1:fired", "h2:fired", "h3:fired", "body>=4K", "header-order")
+	s.Need(t, "h1:fired", "h2:fired", "h3:fired", "body>=4K", "header-order", "retried-attempt")
 	s.Finish()
 }
 
